@@ -50,11 +50,13 @@ end
 /-- the final value of a variable that is *not* accumulated: the statements touching it, in source order -/
 def plainValue (v : Str) (tree : List Stmt) : Option Str := own v ((flat [] tree).map (·.2)) none
 
-/-- functions defined anywhere in the tree (`EXPORT_FUNCTIONS p` in eclass `e` defines `e_p` … and `p`) -/
+/-- functions defined anywhere in the tree; `EXPORT_FUNCTIONS p₁ … pₙ` in an eclass defines `p₁ … pₙ`
+(PMS: "defines a function `p` that calls `<eclass>_p`" — wherever the call stands relative to the
+definition of `<eclass>_p`) -/
 def definedFuncs (tree : List Stmt) : List Str :=
   (flat [] tree).flatMap fun ms => match ms.2 with
     | .func n => [n]
-    | .export p => [ms.1 ++ '_' :: p, p]
+    | .export ps => ps
     | _ => []
 
 /-- the direct inherits of the ebuild -/
